@@ -106,6 +106,17 @@ func run(c *vf.Ctx) {
 	c.Assume("a join is 'acknowledged' iff Joiner.Do / Bootstrapper.Boot returned nil; its suffrage is read from a node that was leader before and after the read, right after the ack and again 1 s later; both must differ from the request for a violation")
 	c.Assume("removal time = first poll on which a node that is leader before and after the poll no longer lists the entry (later than the real removal, never earlier); cut time = taken just before the faultnet Isolate / Close call; verdict only if the victim itself had heard from the leader less than one heartbeat timeout before the cut, and no operation touched its ID or address meanwhile")
 	c.Assume("a refused join (error returned to the joiner) is not an acknowledgement and is not judged")
+	// the duplicate detector itself (raft refuses to build such configurations,
+	// so no live run can show that it works)
+	if w, _ := dupIn([]entry{{ID: "a", Addr: "x"}, {ID: "b", Addr: "y"}, {ID: "a", Addr: "z"}}); w != "duplicate-id" {
+		panic("dup detector: id")
+	}
+	if w, _ := dupIn([]entry{{ID: "a", Addr: "x"}, {ID: "b", Addr: "x"}}); w != "duplicate-address" {
+		panic("dup detector: address")
+	}
+	if w, _ := dupIn([]entry{{ID: "a", Addr: "x"}, {ID: "b", Addr: "y"}}); w != "" {
+		panic("dup detector: clean")
+	}
 	nHist := c.N(6, 100)
 	nOps := c.N(8, 12)
 	if c.ReplayFile != "" {
